@@ -223,13 +223,25 @@ Definition unwrap_stackslice (w : world) (s : sspec) : sres :=
 
 (* ------------------------------------------------------------------ the three entry points *)
 
+(* a Python value handed to extract_since / extract_until where a frame or a limit is expected
+   (their isinstance checks): None, an int, a bool (bool is a subclass of int), a frame, anything else *)
+Inductive pyarg := PNone | PInt (z : Z) | PBool (b : bool) | PFrame (n : nat) | POther.
+
 Inductive api :=
   | ASlice (outer inner : option nat) (limit : option Z)     (* extract(StackSlice(...)) *)
   | ASince (outer : option nat)                              (* extract_since *)
   | AUntilN (inner : nat) (limit : option Z)                 (* extract_until, int/None limit *)
-  | AUntilF (inner : nat) (limit : nat).                     (* extract_until, frame limit *)
+  | AUntilF (inner : nat) (limit : nat)                      (* extract_until, frame limit *)
+  | ASinceV (outer : pyarg)                                  (* extract_since(<any value>) *)
+  | AUntilV (inner : nat) (limit : pyarg).                   (* extract_until(frame, limit=<any value>) *)
 
-Inductive ares := AOk (r : sres) | ARaised.
+Inductive ares := AOk (r : sres) | ARaised | ATypeError.
+
+Definition until_frame (w : world) (i lim : nat) : ares :=
+  match take_until lim (chain_from w i) with
+  | Some _ => AOk (unwrap_stackslice w {| s_outer := Some lim; s_inner := Some i; s_limit := None |})
+  | None => ARaised
+  end.
 
 Definition run_api (w : world) (a : api) : ares :=
   match a with
@@ -241,6 +253,16 @@ Definition run_api (w : world) (a : api) : ares :=
       | Some _ => AOk (unwrap_stackslice w {| s_outer := Some lim; s_inner := Some i; s_limit := None |})
       | None => ARaised
       end
+  (* the isinstance checks of extract_since / extract_until on untyped arguments *)
+  | ASinceV PNone => AOk (unwrap_stackslice w {| s_outer := None; s_inner := None; s_limit := None |})
+  | ASinceV (PFrame n) => AOk (unwrap_stackslice w {| s_outer := Some n; s_inner := None; s_limit := None |})
+  | ASinceV _ => ATypeError
+  | AUntilV i PNone => AOk (unwrap_stackslice w {| s_outer := None; s_inner := Some i; s_limit := None |})
+  | AUntilV i (PInt z) => AOk (unwrap_stackslice w {| s_outer := None; s_inner := Some i; s_limit := Some z |})
+  | AUntilV i (PBool b) =>
+      AOk (unwrap_stackslice w {| s_outer := None; s_inner := Some i; s_limit := Some (if b then 1 else 0)%Z |})
+  | AUntilV i (PFrame n) => until_frame w i n
+  | AUntilV i POther => ATypeError
   end.
 
 (* ------------------------------------------------------------------ generated cases *)
@@ -256,6 +278,7 @@ Definition ares_eqb (a b : ares) : bool :=
   match a, b with
   | AOk x, AOk y => sres_eqb x y
   | ARaised, ARaised => true
+  | ATypeError, ATypeError => true
   | _, _ => false
   end.
 
